@@ -1,11 +1,11 @@
 package checks
 
 import (
-	"strings"
 	"bytes"
 	"fmt"
 	"os"
 	"path/filepath"
+	"strings"
 
 	"verif/gen"
 	"verif/jt"
